@@ -6,7 +6,15 @@ Import ListNotations.
 Open Scope Z_scope.
 
 (* ------------------------------------------------------------------ well-formed cells *)
-Definition wf (c : cell) : Prop := exists c0, topo c0 /\ Permutation c0 c.
+(* built: from a parentless root by adding segments with a fresh id under an existing parent, in any document order *)
+Definition built (c : cell) : Prop := exists c0, topo c0 /\ Permutation c0 c.
+
+(* wf: the same trees, described without a construction order (and decidable: Model/Morph.v wfb, Proofs/MorphP6.v):
+   distinct ids, exactly one parentless segment, every segment reaches it through its parent chain *)
+Definition wf (c : cell) : Prop :=
+  NoDup (ids c) /\
+  (exists r, In r c /\ sparent r = None /\ forall s, In s c -> sparent s = None -> s = r) /\
+  (forall s, In s c -> exists n, Rooted c (sid s) n /\ (n < length c)%nat).
 
 (* a parentless segment carries its own proximal point (NeuroML: a segment has a parent or a proximal) *)
 Definition root_has_prox (c : cell) : Prop :=
@@ -88,14 +96,14 @@ Proof.
     + destruct (IH s Hs) as [n [Hn Hlt]]. exists n. split; [|simpl; lia]. eapply Rooted_incl; eauto.
 Qed.
 
-Lemma wf_nodup : forall c, wf c -> NoDup (ids c).
+Lemma built_nodup : forall c, built c -> NoDup (ids c).
 Proof.
   intros c [c0 [Ht Hp]]. apply (Permutation_NoDup (l := ids c0)).
   - unfold ids. now apply Permutation_map.
   - now apply topo_nodup.
 Qed.
 
-Lemma wf_parent_in : forall c s p f, wf c -> In s c -> sparent s = Some (p, f) -> exists par, In par c /\ sid par = p.
+Lemma built_parent_in : forall c s p f, built c -> In s c -> sparent s = Some (p, f) -> exists par, In par c /\ sid par = p.
 Proof.
   intros c s p f [c0 [Ht Hp]] Hs Hpar.
   assert (Hs0 : In s c0) by (eapply Permutation_in; [apply Permutation_sym; eauto|auto]).
@@ -103,7 +111,7 @@ Proof.
   destruct Hin as [par [H1 H2]]. exists par. split; auto. eapply Permutation_in; eauto.
 Qed.
 
-Lemma wf_rooted : forall c s, wf c -> In s c -> exists n, Rooted c (sid s) n /\ (n < length c)%nat.
+Lemma built_rooted : forall c s, built c -> In s c -> exists n, Rooted c (sid s) n /\ (n < length c)%nat.
 Proof.
   intros c s [c0 [Ht Hp]] Hs.
   assert (Hs0 : In s c0) by (eapply Permutation_in; [apply Permutation_sym; eauto|auto]).
@@ -112,7 +120,7 @@ Proof.
   - now rewrite <- (Permutation_length Hp).
 Qed.
 
-Lemma wf_one_root : forall c, wf c ->
+Lemma built_one_root : forall c, built c ->
   exists r, In r c /\ sparent r = None /\ forall s, In s c -> sparent s = None -> s = r.
 Proof.
   intros c [c0 [Ht Hp]]. destruct (topo_one_root _ Ht) as [r [H1 [H2 H3]]].
@@ -121,9 +129,33 @@ Proof.
   - intros s Hs. apply H3. eapply Permutation_in; [apply Permutation_sym; eauto|auto].
 Qed.
 
+Theorem built_wf : forall c, built c -> wf c.
+Proof.
+  intros c H. split; [now apply built_nodup|]. split; [now apply built_one_root|]. intros s Hs. now apply built_rooted.
+Qed.
+
+Lemma wf_nodup : forall c, wf c -> NoDup (ids c).
+Proof. intros c [H _]. exact H. Qed.
+
+Lemma wf_rooted : forall c s, wf c -> In s c -> exists n, Rooted c (sid s) n /\ (n < length c)%nat.
+Proof. intros c s [_ [_ H]] Hs. now apply H. Qed.
+
+Lemma wf_one_root : forall c, wf c ->
+  exists r, In r c /\ sparent r = None /\ forall s, In s c -> sparent s = None -> s = r.
+Proof. intros c [_ [H _]]. exact H. Qed.
+
+Lemma wf_parent_in : forall c s p f, wf c -> In s c -> sparent s = Some (p, f) -> exists par, In par c /\ sid par = p.
+Proof.
+  intros c s p f Hwf Hs Hp. destruct (wf_rooted c s Hwf Hs) as [n [Hn _]].
+  remember (sid s) as id eqn:E. destruct Hn as [s' Hs' Hp'|s' p' f' n Hs' Hp' Hr].
+  - assert (s' = s) by (eapply nodup_same_id; eauto using wf_nodup). subst. congruence.
+  - assert (s' = s) by (eapply nodup_same_id; eauto using wf_nodup). subst s'.
+    rewrite Hp in Hp'. inversion Hp'; subst. eapply Rooted_in; eauto.
+Qed.
+
 (* every tree-shaped cell has the form wf; the smallest: a single parentless segment *)
 Example wf_single : forall s, sparent s = None -> wf [s].
-Proof. intros s H. exists [s]. split; [now constructor|apply Permutation_refl]. Qed.
+Proof. intros s H. apply built_wf. exists [s]. split; [now constructor|apply Permutation_refl]. Qed.
 
 (* ------------------------------------------------------------------ points *)
 Lemma pt_eq_refl : forall p, pt_eq p p.
